@@ -11,7 +11,7 @@ import sys
 from concurrent.futures import ThreadPoolExecutor
 
 VERIF = os.path.dirname(os.path.dirname(os.path.abspath(__file__)))
-OUTSIDE = {"C11-6": "outside the quantifier (see DESIGN 7.6)"}
+OUTSIDE = {"C11-6": "outside the quantifier (see DESIGN 7.6)", "C14-11": "outside the statement: a worker starting during a pause (see DESIGN 7.6)"}
 
 
 def run(name):
